@@ -160,6 +160,12 @@ class VLoop(asyncio.BaseEventLoop):
     def close(self):
         if self.is_closed():
             return
+        try:
+            # tasks that are still pending (execution abandoned, or cancelled by the code under test) must unwind inside their own
+            # contexts, not in the garbage collector
+            self.drain()
+        except BaseException:  # noqa
+            pass
         self._closed = True
         self._ready.clear()
         self._scheduled.clear()
